@@ -10,7 +10,7 @@ EXPLANATION = ("Histories of UnionFind operations over symbolic elements (consta
 BOUNDS = {
     "quick": "UnionFind: histories of <=3 operations (add/union/find-connected) with int operands in [0,2], tuple operands "
              "(a,b) with a,b in [0,1], mixed int/str operands; all observers after every operation. PriorityQueue: <=4 "
-             "push/pop operations with arbitrary real priorities plus +-inf specials.",
+             "push/pop operations with arbitrary real priorities plus +-inf specials; 6 pushes followed by a full drain.",
     "thorough": "UnionFind: <=4 operations with operands in [0,3] (ints), <=3 for tuple/mixed; PriorityQueue: <=6 operations.",
 }
 OUTSIDE = "longer histories; element types other than int / tuple of ints / str; __setitem__ (documented as raw slot access)"
@@ -248,6 +248,29 @@ def pq_history(L, with_inf):
     return h
 
 
+def pq_push_drain(n):
+    """n pushes with arbitrary real priorities, then drain: every pop is a minimum of what is pending"""
+    def h(sx):
+        from mouette.utils import PriorityQueue
+        q = PriorityQueue()
+        w = [sx.real("w%d" % i) for i in range(n)]
+        for i in range(n):
+            q.push(i, w[i])
+            sx.check(symx.And(*[q.front.priority <= w[j] for j in range(i + 1)]), "front is a pending item of minimum priority")
+        pending = set(range(n))
+        while pending:
+            it = q.pop()
+            ok = it.x in pending
+            sx.check(ok, "drain: pop returns a pending item")
+            if not ok:
+                return
+            pending.discard(it.x)
+            sx.check(symx.And(*[w[it.x] <= w[j] for j in pending]) if pending else True, "pop hands out a pending item of minimum priority",
+                     detail="after %d pushes" % n)
+        sx.check(q.empty(), "queue is empty after draining")
+    return h
+
+
 def obligations(tier):
     q = tier == "quick"
     obs = [
@@ -260,6 +283,8 @@ def obligations(tier):
         Ob("uf-empty", uf_empty, covers=COVERS_UF, note="observers on an empty UnionFind"),
         Ob("pq-real", pq_history(4 if q else 6, False), covers=COVERS_PQ, split=5,
            note="PriorityQueue history with symbolic real priorities (ties included)"),
+        Ob("pq-push-drain", pq_push_drain(6 if q else 7), covers=COVERS_PQ, split=7,
+           note="6 pushes with symbolic real priorities then a full drain (every heap shape reachable by pushes)"),
         Ob("pq-inf", pq_history(3 if q else 4, True), covers=COVERS_PQ, split=5,
            note="PriorityQueue history with real priorities and +-inf"),
     ]
